@@ -53,6 +53,9 @@ def handle (j : Json) : Except String Verdict := do
   let field ← getObj j "field"
   let fm ← fmetaOfJson field
   let backend ← getStr j "backend"
+  -- C16: any outcome of the case (item, typed, strict or bulk read, of the slice or of the whole array) that is an unwinding
+  -- is a failure for C16 whatever C12 says (outcomes are objects with the single key ok / err / panic)
+  let c16 := if (j.compress.splitOn "{\"panic\":").length > 1 then "fail" else "pass"
   let wholeJ ← getObj j "whole_view"
   if (wholeJ.getObjVal? "err").isOk then
     return { agree := true, spec := [("C12", "na")], tags := ["trivial", "conversion-err"], why := wholeJ.compress }
@@ -120,7 +123,7 @@ def handle (j : Json) : Except String Verdict := do
     | .differ w => if agree then agree := false; why := s!"item {k}: {w}"
     k := k + 1
   if !specOk then
-    return { agree := agree, spec := [("C12", "fail"), ("C16", "pass")], sig := s!"C12/items/{backend}/{kind}", tags := tags,
+    return { agree := agree, spec := [("C12", "fail"), ("C16", c16)], sig := s!"C12/items/{backend}/{kind}", tags := tags,
              why := s!"deserializing the slice (o={absO}, l={absL}) does not give the window of the whole array's items" }
   if !agree then
     return { agree := false, spec := [("C12", "pass")], sig := s!"C12/disagree/{backend}/{kind}", tags := tags, why := why }
@@ -133,7 +136,7 @@ def handle (j : Json) : Except String Verdict := do
       let windowTyped := (wholeTyped.drop absO).take absL
       tags := label :: tags
       if sliceTyped != windowTyped || sliceTyped.length != absL then
-        return { agree := true, spec := [("C12", "fail"), ("C16", "pass")], sig := s!"C12/{label}-items/{backend}/{kind}", tags := tags,
+        return { agree := true, spec := [("C12", "fail"), ("C16", c16)], sig := s!"C12/{label}-items/{backend}/{kind}", tags := tags,
                  why := s!"{label} reads of the slice (o={absO}, l={absL}) are not the window of the {label} reads of the whole array" }
       if sliceTyped.any (fun it => implCls it != "ok") then tags := s!"{label}-err" :: tags
       k := 0
@@ -159,7 +162,7 @@ def handle (j : Json) : Except String Verdict := do
         | _ => true
       if implCls sliceBulk != "ok" then tags := s!"{label}-bulk-err" :: tags
       if !bulkOk || !wholeOk then
-        return { agree := true, spec := [("C12", "fail"), ("C16", "pass")], sig := s!"C12/{label}-bulk/{backend}/{kind}", tags := tags,
+        return { agree := true, spec := [("C12", "fail"), ("C16", c16)], sig := s!"C12/{label}-bulk/{backend}/{kind}", tags := tags,
                  why := s!"bulk {label} read of the slice (o={absO}, l={absL}) is not the window of the reads of the whole array" }
       match compareRead (modelRead Fixes.all fm final { ty := ty, idx := 0, bulk := true }) sliceBulk with
       | .agree => pure ()
@@ -167,6 +170,9 @@ def handle (j : Json) : Except String Verdict := do
         return { agree := false, spec := [("C12", "pass")], sig := s!"C12/{label}-bulk-disagree/{backend}/{kind}", tags := tags,
                  why := s!"bulk {label}: {w}" }
   if rows.length == 0 then tags := "trivial" :: tags
-  return { agree := true, spec := [("C12", "pass"), ("C16", "pass")], tags := tags.eraseDups }
+  if c16 == "fail" then
+    return { agree := false, spec := [("C12", "pass"), ("C16", "fail")], sig := s!"C12/panic/{backend}/{kind}", tags := tags.eraseDups,
+             why := "a read of the slice or of the whole array unwinds" }
+  return { agree := true, spec := [("C12", "pass"), ("C16", c16)], tags := tags.eraseDups }
 
 end Driver.Suites.Slice
